@@ -48,6 +48,12 @@ def run(pid, tier):
                 k += 1
                 tr = os.path.join(wd, "mtq%02d.ndjson" % k)
                 jobs.append((tr, [os.path.join(BIN, "mt_queue"), tr, str(nruns), str(prods), str(per), str(seed() * 100 + k), mode]))
+    # bursts against a blocking stepper without artificial delays: many enqueues find the queue non-empty while the
+    # stepper is about to block (the window of a lost wake-up)
+    for prods, per in ((4, 800), (2, 1500), (1, 2500)):
+        k += 1
+        tr = os.path.join(wd, "mtq%02d.ndjson" % k)
+        jobs.append((tr, [os.path.join(BIN, "mt_queue"), tr, str(4 if tier == "quick" else 30), str(prods), str(per), str(seed() * 100 + k), "burst"]))
     res = run_parallel([j[1] for j in jobs], timeout=1800)
     for (rc, out), j in zip(res, jobs):
         if rc != 0:
